@@ -82,7 +82,12 @@ def _main_check(ctx: Ctx) -> None:
             has_time = isinstance(leaf, ast.Call) and isinstance(leaf.func, ast.Name) and leaf.func.id == "hasattr" and not neg
             not_none = isinstance(leaf, ast.Compare) and isinstance(leaf.comparators[0], ast.Constant) and leaf.comparators[0].value is None \
                 and _is_msg_time(leaf.left) and (isinstance(leaf.ops[0], ast.IsNot) != neg)
-            okl = okl and (has_time or not_none)
+            # `getattr(msg, "time", None) is not None`: both tests in one
+            getattr_form = isinstance(leaf, ast.Compare) and isinstance(leaf.comparators[0], ast.Constant) and leaf.comparators[0].value is None \
+                and isinstance(leaf.left, ast.Call) and src(leaf.left.func) == "getattr" and len(leaf.left.args) == 3 and src(leaf.left.args[0]) == m \
+                and isinstance(leaf.left.args[1], ast.Constant) and leaf.left.args[1].value == "time" \
+                and isinstance(leaf.left.args[2], ast.Constant) and leaf.left.args[2].value is None and (isinstance(leaf.ops[0], ast.IsNot) != neg)
+            okl = okl and (has_time or not_none or getattr_form)
         ok = okl and not any(isinstance(x, ast.BoolOp) and isinstance(x.op, ast.Or) for x in ast.walk(g.test))
         ctx.check(ok, "ACC2", f"{fi.qualname}: accumulation skipped only for messages without a time", function=fi.qualname,
                   construct="delta buffer accumulation guarded by an unrelated condition", message=short(g.test), file=fi.file, node=g)
